@@ -8,6 +8,7 @@ import (
 	"net/http"
 	"sort"
 	"strings"
+	"sync"
 	"time"
 
 	"github.com/anishathalye/porcupine"
@@ -200,6 +201,29 @@ func c05Run(env *verifsim.Env, raw json.RawMessage) *verifsim.Violation {
 	}
 	docID := func(i int) string { return fmt.Sprintf("doc%d", i) }
 
+	// what reaches storage, in storage order: the sequence carried by every applied document write
+	var obsMu sync.Mutex
+	storedSeqs := map[string][]uint64{}
+	storedMeta := map[string][]bool{} // metadata-only rewrite (keeps revision and sequence)
+	n1.node.Observe = func(o simstore.OpInfo) {
+		if o.Class != "doc" || o.Err != nil || o.Xattrs == nil {
+			return
+		}
+		raw, ok := o.Xattrs[base.SyncXattrName]
+		if !ok {
+			return
+		}
+		var sd struct {
+			Sequence uint64 `json:"sequence"`
+		}
+		if json.Unmarshal(raw, &sd) == nil && sd.Sequence != 0 {
+			obsMu.Lock()
+			storedSeqs[o.Key] = append(storedSeqs[o.Key], sd.Sequence)
+			storedMeta[o.Key] = append(storedMeta[o.Key], o.Op == "UpdateXattrs")
+			obsMu.Unlock()
+		}
+	}
+
 	// optional pre-existing documents (written without faults, before the race)
 	initialRev := map[string]string{}
 	initialSeq := map[string]uint64{}
@@ -376,6 +400,18 @@ func c05Run(env *verifsim.Env, raw json.RawMessage) *verifsim.Violation {
 				// (ii) strictly greater than the write it superseded
 				if ps, ok := seqOfRev[id+"/"+a.Parent]; ok && a.Parent != "" && a.Seq != 0 && a.Seq <= ps {
 					vio = verifsim.Vf("C05", "sequence-order", "revision %s of %s got sequence %d, not greater than its parent's %d", a.Rev, id, a.Seq, ps)
+					return
+				}
+			}
+			// (ii') every successful update of the document carries a sequence strictly greater
+			// than the one it replaced, in the order the writes reached storage
+			obsMu.Lock()
+			stored := append([]uint64{}, storedSeqs[id]...)
+			meta := append([]bool{}, storedMeta[id]...)
+			obsMu.Unlock()
+			for k := 1; k < len(stored); k++ {
+				if stored[k] < stored[k-1] || (stored[k] == stored[k-1] && !meta[k]) {
+					vio = verifsim.Vf("C05", "sequence-order", "%s: a write carrying sequence %d replaced the stored sequence %d (sequences in storage order: %v)", id, stored[k], stored[k-1], stored)
 					return
 				}
 			}
